@@ -319,7 +319,9 @@ class MinGenSet():
         start_time = time.perf_counter()
 
         # Solve for increasing numbers of elements in the generating set
-        for k in range(self.lowerbound, max(self.lowerbound+1, len(self.initial_numbers))):
+        # A generating set with at most len(numbers) + 1 elements always exists (consecutive differences of the
+        # sorted numbers, plus the remainder up to the total), so every k up to that value is tried
+        for k in range(self.lowerbound, max(self.lowerbound, len(self.initial_numbers) + 1) + 1):
             self._create_solver(k=k)
             self.solver.optimize()
 
